@@ -257,15 +257,142 @@ Definition read_smodels (o : opts) (input : list Z) : cres unit :=
     cbind ([CInit inc], Ok s) (fun s => parse_steps (fuel_of s) o inc s)
   else ([], Err (aline s)).
 
-(* ---- case decoding:  [N; opts; len; bytes...]  (N = BUF_SIZE of the variant, irrelevant for the abstract stream) ---- *)
+(* ================= the reader with a configured atom limit: ProgramReader::setMaxVar(vm) =================
+   ProgramReader::matchAtom(err) is  Potassco::matchAtom( *stream(), varMax_, err)  - the MEMBER passes the reader's varMax_, the free
+   function's default would be atomMax.  SmodelsInput reads with the member (hence against varMax_): the head atoms, the head COUNT of a
+   choice / disjunctive rule (matchAtom("positive head size expected")), the atoms of normal bodies (matchBody) and of cardinality /
+   weight / optimize bodies (matchSum), the atom of the clasp-extension rules 91 / 92.  Symbol-table atoms, compute-statement atoms and
+   the atoms of the E section are read with matchPos(atomMax, ...) and do NOT depend on varMax_.
+   The functions above are the instance vm = sm_varMax (the constructor's default; equal BY CONVERSION, V.C07.ProofsLex.read_smodels_default);
+   C04 / C05 / C08 state their theorems about that instance.  Domain: vm <= atomMax (lit() converts a body atom to int32 without a test;
+   the model has no wrap there, run_case answers [-3] for larger values and the harness does not call setMaxVar with them). *)
+Section MaxVar.
+Variable vm : Z.
+
+Definition m_atom_v (s : ast) : out (Z * ast) :=
+  match a_match_int false s with
+  | (Some x, s') => if (atomMin <=? x) && (x <=? vm) then Ok (x, s') else Err (aline s')
+  | (None, s') => Err (aline s')
+  end.
+
+Definition m_body_v (s : ast) : out (list Z * ast) :=
+  '(len, s1) <- m_pos sm_umax s ;;
+  '(neg, s2) <- m_pos sm_umax s1 ;;
+  _ <- m_require (negb sm_neg_check_body || (neg <=? len)) s2 ;;
+  '(atoms, s3) <- m_many m_atom_v (fuel_of s2) len s2 ;;
+  Ok (apply_neg neg atoms, s3).
+
+Definition m_sum_v (weights : bool) (s : ast) : out (Z * list (Z * Z) * ast) :=
+  '(a, s1) <- m_pos sm_umax s ;;
+  '(b, s2) <- m_pos sm_umax s1 ;;
+  '(c, s3) <- m_pos sm_umax s2 ;;
+  let '(bnd, len, neg) := if weights then (a, b, c) else (c, a, b) in
+  _ <- m_require (bnd <=? sm_bound_max) s3 ;;
+  _ <- m_require (negb sm_neg_check_sum || (neg <=? len)) s3 ;;
+  '(atoms, s4) <- m_many m_atom_v (fuel_of s3) len s3 ;;
+  let lits := apply_neg neg atoms in
+  if weights then
+    '(ws, s5) <- m_many m_weight (fuel_of s4) len s4 ;;
+    Ok (wrap32s bnd, combine lits ws, s5)
+  else Ok (wrap32s bnd, map (fun l => (l, 1)) lits, s4).
+
+Definition read_rule_v (o : opts) (prio : Z) (rt : Z) (s : ast) : out (list call * Z * ast) :=
+  if (rt =? Sm_Choice) || (rt =? Sm_Disjunctive) then
+    '(n, s1) <- m_atom_v s ;;
+    '(hs, s2) <- m_many m_atom_v (fuel_of s1) n s1 ;;
+    '(b, s3) <- m_body_v s2 ;;
+    Ok ([CRule (if rt =? Sm_Choice then Head_t_Choice else Head_t_Disjunctive) hs b], prio, s3)
+  else if rt =? Sm_Basic then
+    '(h, s1) <- m_atom_v s ;;
+    '(b, s2) <- m_body_v s1 ;;
+    Ok ([CRule Head_t_Disjunctive [h] b], prio, s2)
+  else if (rt =? Sm_Cardinality) || (rt =? Sm_Weight) then
+    '(h, s1) <- m_atom_v s ;;
+    '(bnd, wl, s2) <- m_sum_v (rt =? Sm_Weight) s1 ;;
+    Ok ([CWRule Head_t_Disjunctive [h] bnd wl], prio, s2)
+  else if rt =? Sm_Optimize then
+    '(_, wl, s1) <- m_sum_v true s ;;
+    Ok ([CMin prio wl], prio + 1, s1)
+  else if rt =? Sm_ClaspIncrement then
+    if claspExt o then
+      '(z, s1) <- m_pos sm_umax s ;;
+      _ <- m_require (z =? 0) s1 ;;
+      Ok ([], prio, s1)
+    else Err (aline s)
+  else if (rt =? Sm_ClaspAssignExt) || (rt =? Sm_ClaspReleaseExt) then
+    if claspExt o then
+      '(a, s1) <- m_atom_v s ;;
+      if rt =? Sm_ClaspAssignExt then
+        '(v, s2) <- m_pos sm_extval_max s1 ;;
+        Ok ([CExternal a (Z.lxor v sm_extval_xor - sm_extval_sub)], prio, s2)
+      else Ok ([CExternal a Value_t_Release], prio, s1)
+    else Err (aline s)
+  else Err (aline s).
+
+Fixpoint read_rules_v (fuel : nat) (o : opts) (prio : Z) (s : ast) : cres ast :=
+  match fuel with
+  | O => ([], Fuel)
+  | S fu =>
+      match m_pos sm_rt_max s with
+      | Ok (rt, s1) =>
+          if rt =? 0 then ([], Ok s1) else
+          match read_rule_v o prio rt s1 with
+          | Ok (cs, prio', s2) => let '(cs2, r) := read_rules_v fu o prio' s2 in (cs ++ cs2, r)
+          | Err l => ([], Err l)
+          | Fuel => ([], Fuel)
+          end
+      | Err l => ([], Err l)
+      | Fuel => ([], Fuel)
+      end
+  end.
+
+Definition do_parse_v (o : opts) (s : ast) : cres ast :=
+  cbind ([CBegin], Ok s) (fun s =>
+  cbind (read_rules_v (fuel_of s) o 0 s) (fun s1 =>
+  cbind (read_symbols (fuel_of s1) s1) (fun s2 =>
+  cbind (read_compute sm_kw_bplus true s2) (fun s3 =>
+  cbind (read_compute sm_kw_bminus false s3) (fun s4 =>
+  cbind (read_extra s4) (fun s5 => ([CEnd], Ok s5))))))).
+
+Fixpoint parse_steps_v (fuel : nat) (o : opts) (inc : bool) (s : ast) : cres unit :=
+  match fuel with
+  | O => ([], Fuel)
+  | S fu =>
+      cbind (do_parse_v o s) (fun s1 =>
+      let s2 := a_skipws s1 in
+      let more := negb (a_end s2) in
+      if more && negb inc then ([], Err (aline s2))
+      else if more then parse_steps_v fu o inc s2 else ([], Ok tt))
+  end.
+
+Definition read_smodels_v (o : opts) (input : list Z) : cres unit :=
+  let s := a_init input in
+  let n := a_peek s in
+  let inc := n =? 57 in
+  if is_digit n && (negb inc || claspExt o) then
+    cbind ([CInit inc], Ok s) (fun s => parse_steps_v (fuel_of s) o inc s)
+  else ([], Err (aline s)).
+End MaxVar.
+
+(* ---- case decoding:  [N; opts; len; bytes...; mv?]  (N = BUF_SIZE of the variant, irrelevant for the abstract stream)
+   mv (optional, behind the text): 0 / absent = setMaxVar is not called (varMax_ = sm_varMax); k in 1..atomMax = setMaxVar(k);
+   -1 = setMaxVar(0) (every atom the member matchAtom reads is refused); anything else is outside the model's domain ([-3]). ---- *)
 Definition encode_result (r : cres unit) : list Z :=
   let '(cs, o) := r in
   enc_calls cs ++ match o with Ok _ => [1; 0; 0] | Err l => [0; l; 1] | Fuel => [-1; 0; 0] end.
+
+Definition decode_maxvar (mv : Z) : option Z :=
+  if mv =? 0 then Some sm_varMax
+  else if mv =? -1 then Some 0
+  else if (1 <=? mv) && (mv <=? atomMax) then Some mv else None.
 
 Definition run_case (c : list Z) : list Z :=
   match c with
   | _ :: ob :: len :: r =>
       if negb ((ob / 2) mod 4 =? 0) then [-3] else
-      encode_result (read_smodels (mkopts (Z.odd ob) (negb ((ob / 8) mod 2 =? 0))) (firstn (Z.to_nat len) r))
+      match decode_maxvar (hd 0 (skipn (Z.to_nat len) r)) with
+      | Some vm => encode_result (read_smodels_v vm (mkopts (Z.odd ob) (negb ((ob / 8) mod 2 =? 0))) (firstn (Z.to_nat len) r))
+      | None => [-3]
+      end
   | _ => []
   end.
